@@ -106,6 +106,40 @@ func propC14(c *ctx) error {
 		}
 		return nil
 	}
+	// the directive sits in a tag whose OTHER attributes (before and after it) are delimited by the other quote character, or
+	// by none: each attribute value ends at its own delimiter, and the literal inside ${} may contain the other one
+	for _, a := range alpha {
+		for _, b := range append([]string{""}, alpha...) {
+			s := a + b
+			for _, lit := range []string{encodeQ(s, '"'), encodeQ(s, '\'')} {
+				for _, dq := range []string{"\"", "'"} {
+					if strings.Contains(lit, dq) {
+						continue
+					}
+					oq := map[string]string{"\"": "'", "'": "\""}[dq]
+					for vi, tag := range []string{
+						"<p class=" + oq + "k" + oq + " :text=" + dq + "x${" + lit + "}y" + dq + ">z</p>",
+						"<p :text=" + dq + "x${" + lit + "}y" + dq + " class=" + oq + "k" + oq + ">z</p>",
+						"<p id=" + dq + "i" + dq + " class=" + oq + "k" + oq + " :text=" + dq + "x${" + lit + "}y" + dq + " lang=en>z</p>",
+					} {
+						rc := &renderCase{Files: [][2]string{{"t", tag}}, Tpl: "t"}
+						impl, _, err := compareRender(c, rc, false)
+						if err != nil {
+							return err
+						}
+						res.eval("mixq|"+tag, true, J{"src": tag})
+						res.S3Checked++
+						res.count("mixed_quote_tags")
+						wantOut := []string{"<p class=" + oq + "k" + oq + ">", "<p class=" + oq + "k" + oq + ">", "<p id=" + dq + "i" + dq + " class=" + oq + "k" + oq + " lang=en>"}[vi] + "x" + escapeGoStyle(s) + "y</p>"
+						if impl.Load != "ok" || impl.St != "ok" || impl.text() != wantOut {
+							res.violate(rc.toJ(), wantOut, J{"load": impl.Load, "st": impl.St, "out": impl.text(), "err": trunc(impl.Err, 120)},
+								"in a tag whose attributes use both quote characters, a literal inside ${} ends the attribute early / another attribute's delimiter is applied")
+						}
+					}
+				}
+			}
+		}
+	}
 	maxLen := 2
 	if !c.quick() {
 		maxLen = 3
